@@ -47,6 +47,14 @@ var c18Templates = []string{
 	`const C = 1 + 2 script S { c(C) if (var(C) == C) { d } }`,
 	`const C = D const C2 = (C) mart K { C }`,
 	`script S { if (flag(A)) { if (flag(B)) { c } else { while (flag(C)) { d } } } e }`,
+	// near misses (already ill-formed): their neighbourhood holds the shapes that need two edits from a valid program
+	`script S { switch (random(3)) foo }`,
+	`script S { switch (var(V)) foo }`,
+	`script S { if (random(2) == 1) foo }`,
+	`script S { while (flag(A)) foo bar }`,
+	`script S { do { c } while flag(A) }`,
+	`text T { format("a~b", "1_latin_rse" 30) }`,
+	`mapscripts M { T3 [ VAR_A, 1 L2 ] }`,
 }
 
 var c18EditWords = []string{"(", ")", "{", "}", "[", "]", ",", ":", "*", "=", "==", "!", "&&", "||", `"`, "`", "value()", "value(", "0", "-1", "99999999999999999999", "٣", "_", "poryswitch", "format", "case", "default", "if", "while", "continue", "break", "script", "text", "const", "global", "�", "\x00", "#", `"bogus"`, `"TEST"`}
